@@ -8,7 +8,7 @@
 //! union histories.  After every round:
 //! Also 100 (deep: 2000) union histories: 6 terms (some are slot-permuted copies of earlier ones, or two such copies under
 //! one node), 8 unions between them, observed after every union.
-//!  `ematch_all` / `multi_ematch` (C05): 12 patterns and 4 multi-patterns; every returned substitution binds every
+//!  `ematch_all` / `multi_ematch` (C05): 12 patterns and 9 multi-patterns; every returned substitution binds every
 //!    pattern variable, the instantiated pattern is found by `lookup` alone (nothing inserted), every multi-pattern
 //!    equation holds between the bound classes, and matching leaves node count / classes / slots untouched;
 //!  `EGraph::add_expr` (C09): re-inserting every kept term, and the same term with its free slots renamed, creates
@@ -129,7 +129,10 @@ fn child_permuted_variants(t: &RecExpr<KL>) -> Vec<(RecExpr<KL>, RecExpr<KL>, Re
 fn rename(t: &str) -> String { let mut s = t.to_string(); for k in (1..=9).rev() { s = s.replace(&format!("${})", k), &format!("$1{})", k)); s = s.replace(&format!("${} ", k), &format!("$1{} ", k)); } s }
 
 fn multi_pats() -> Vec<&'static str> {
-    vec!["?x == (mul ?a ?b), ?b == zero", "?o == (add ?a ?b), ?b == (sub ?a ?a)", "?o == (f3 ?a ?b ?c), ?a == (var $1)", "?o == (app ?f ?t), ?f == (lam $1 ?b)"]
+    vec!["?x == (mul ?a ?b), ?b == zero", "?o == (add ?a ?b), ?b == (sub ?a ?a)", "?o == (f3 ?a ?b ?c), ?a == (var $1)", "?o == (app ?f ?t), ?f == (lam $1 ?b)",
+         // two different pattern slots: they must not be identified with each other
+         "?o == (sub ?a ?b), ?a == (var $1), ?b == (var $2)", "?o == (add ?a ?b), ?b == (var $2), ?a == (var $1)", "?o == (lam $1 ?b), ?b == (var $2)",
+         "?o == (mul ?a ?b), ?a == (var $1), ?b == (mul ?c ?d), ?c == (var $2)", "?o == (lam $1 ?b), ?b == (app ?f ?x), ?f == (var $1), ?x == (var $2)"]
 }
 
 struct Hist { eg: EG, subs: Vec<RecExpr<KL>>, handles: Vec<AppliedId>, equal_pairs: Vec<(usize, usize)>, slot_counts: Vec<usize>, prog: ProgressMeasure }
@@ -258,6 +261,8 @@ fn hand_written() -> Vec<(Vec<&'static str>, Vec<(usize, usize)>)> {
         (vec!["(mul (var $1) zero)", "zero", "(mul (var $2) (var $3))", "(mul (var $3) (var $2))"], vec![(0, 1), (2, 3)]),
         // a symmetric class loses a slot outside the orbit of its symmetry: the symmetry must survive
         (vec!["(f3 (var $1) (var $2) (var $3))", "(f3 (var $2) (var $1) (var $3))", "(f3 (var $1) (var $2) zero)"], vec![(0, 1), (0, 2)]),
+        // the same slot in two places where a multi-pattern names two different slots
+        (vec!["(sub (var $1) (var $1))", "(sub (var $1) (var $2))", "(lam $1 (var $1))", "(lam $1 (var $2))", "(add (var $3) (var $3))", "(mul (var $1) (mul (var $1) (var $2)))", "(lam $3 (app (var $3) (var $3)))", "(lam $3 (app (var $3) (var $1)))"], vec![(0, 0)]),
         // shadowing binders, the same name bound twice, a bound name that is also free elsewhere, repeated free slots
         (vec!["(lam $1 (lam $1 (var $1)))", "(lam $1 (app (var $1) (lam $1 (var $1))))", "(app (lam $1 (var $1)) (var $1))", "(app (lam $1 (var $1)) (lam $1 (app (var $1) (var $2))))", "(lam $2 (lam $1 (app (var $1) (var $2))))", "(lam $1 (lam $2 (app (var $2) (var $1))))", "(add (var $1) (var $1))", "(lam $3 (add (var $3) (add (var $1) (var $3))))"], vec![(0, 0)]),
         // a child whose group has elements that are neither the identity nor one of the stored generators (S3, Klein
@@ -281,7 +286,7 @@ pub fn run(only: &[String]) -> Vec<String> {
     for what in ["ematch_all", "EGraph::add_expr", "EGraph::find_applied_id"] {
         if !(only.is_empty() || only.iter().any(|x| x == what)) { continue; }
         let mut n = 0;
-        let mut report = |e: String, fails: &mut Vec<String>| { if n < 3 { n += 1; let (c, m) = e.split_once(' ').unwrap(); fails.push(format!("FAIL {} {} {}", what, c, m)); } };
+        let mut report = |e: String, mut fails: &mut Vec<String>| { if n < 3 { n += 1; let (c, m) = e.split_once(' ').unwrap(); fails.push(format!("FAIL {} {} {}", what, c, m)); } };
         for (adds, unions) in hand_written() {
             let desc = format!("history add {:?}; union {:?}", adds, unions);
             verif_case(format!("{}: {}", what, desc));
